@@ -108,6 +108,23 @@ func runC11(c C11Case, ev *Evid) (fs []Finding) {
 					return
 				}
 			}
+		case "near-sum":
+			// every stored value of the expected sum, one unit in the last place off
+			full := expectedSum(base, item, c.SrcPattern, -1, 0, now, now, lm)
+			var ws []SlotWrite
+			for a := range l.Archives {
+				if s := full.Series[a]; s != nil {
+					for k, v := range s.Values {
+						if v == v && v != 0 && !math.IsInf(v, 0) {
+							ws = append(ws, SlotWrite{Arch: a, T: s.From + int64(k)*s.Step, V: F64(math.Nextafter(v, math.Inf(1)))})
+						}
+					}
+				}
+			}
+			if err := buildFile(dp, FileSpec{L: l, Writes: ws}, now); err != nil {
+				add("setup", "%v", err)
+				return
+			}
 		case "random":
 			if err := buildFile(dp, FileSpec{L: l, Writes: c.DestWrites}, now); err != nil {
 				add("setup", "%v", err)
@@ -308,7 +325,7 @@ func genC11(t *rapid.T) C11Case {
 	c.SrcPattern = rapid.SampledFrom([]string{"*.wsp", "*.wsp", "f?.wsp", "f[12].wsp", "f1.wsp"}).Draw(t, "srcPattern")
 	n := rapid.IntRange(1, 3).Draw(t, "modes")
 	for i := 0; i < n; i++ {
-		c.DestModes = append(c.DestModes, rapid.SampledFrom([]string{"absent", "fresh", "first-file", "first-file", "random", "coarser-equal", "coarser-equal"}).Draw(t, "destMode"))
+		c.DestModes = append(c.DestModes, rapid.SampledFrom([]string{"absent", "fresh", "first-file", "first-file", "random", "coarser-equal", "coarser-equal", "near-sum"}).Draw(t, "destMode"))
 	}
 	c.DestWrites = genWrites(t, l, now, valDyadic, 10)
 	k := rapid.IntRange(0, 3).Draw(t, "perturb")
